@@ -44,7 +44,8 @@ PROPS = {
     },
     "C03": {
         "required_theorems": ["c03_invariant", "c03_windows_disjoint", "c03_reader_sees_committed",
-                              "c03_consumed_prefix", "c03_bookkeeping_atomic", "c03_ceiling_never_fires"],
+                              "c03_consumed_prefix", "c03_bookkeeping_atomic", "c03_ceiling_never_fires",
+                              "c03_sections_as_modelled"],
         "runs": [
             {"sub": "conc", "quick": ["--seed", "{seed}", "--cases", 2000, "--max-steps", 60, "--stress", 4,
                                       "--stress-total", 200000],
@@ -68,6 +69,9 @@ PROPS = {
         "runs": [
             {"sub": "waits", "quick": ["--seed", "{seed}", "--races", 6],
              "thorough": ["--seed", "{seed}", "--races", 200], "timeout": 6000},
+            # the runner must hand the verdict's amount to wait(): scripted blocks on the real MTGraph
+            {"sub": "sched", "quick": ["--seed", "{seed}", "--what", "mt", "--mt-cases", 300],
+             "thorough": ["--seed", "{seed}", "--what", "mt", "--mt-cases", 20000], "timeout": 20000},
         ],
         "rule": "sequential grid (amount x need x peer alive) of every decision function against the Lean model run on the "
                 "GENERATED read order; deterministic replays on real threads (verif::point hook) of the witness schedule "
@@ -146,8 +150,10 @@ PROPS = {
         "required_theorems": ["c19_steps", "c19_steps_bounded", "c19_wait_input", "c19_wait_output", "c19_eof",
                               "c19_chunk_independent"],
         "runs": [
-            {"sub": "blocks", "quick": ["--seed", "{seed}", "--set", "arity", "--cases", 600, "--steps", 40, "--tag-heavy", 1],
-             "thorough": ["--seed", "{seed}", "--set", "arity", "--cases", 30000, "--steps", 60, "--tag-heavy", 1]},
+            {"sub": "blocks", "quick": ["--seed", "{seed}", "--set", "arity", "--cases", 600, "--steps", 40, "--tag-heavy", 1,
+                                        "--eof-probes", 1],
+             "thorough": ["--seed", "{seed}", "--set", "arity", "--cases", 30000, "--steps", 60, "--tag-heavy", 1,
+                          "--eof-probes", 1]},
         ],
         "rule": "harness-defined derive blocks (compiled against the real macro): sync with 1..3 inputs x 1..3 outputs "
                 "(output j = sum of inputs + j, so wiring order is visible), sync_tag 1x1 and 2x2 with default and into "
@@ -211,7 +217,8 @@ PROPS = {
         "assumptions": [],
     },
     "C10": {
-        "required_theorems": ["c10_samplewise", "c10_nrzi", "c10_nrzi_xor_tee_delay", "c10_skip", "c10_delay", "c10_rtlsdr"],
+        "required_theorems": ["c10_samplewise", "c10_nrzi", "c10_nrzi_xor_tee_delay", "c10_skip", "c10_delay", "c10_rtlsdr",
+                              "c10_s2pdu"],
         "runs": [
             {"sub": "blocks", "quick": ["--seed", "{seed}", "--set", "modelled", "--cases", 1600, "--steps", 30],
              "thorough": ["--seed", "{seed}", "--set", "modelled", "--cases", 80000, "--steps", 60]},
@@ -233,7 +240,7 @@ PROPS = {
         "required_theorems": ["c11_fir_any_chunking", "c11_fir_sliding", "c11_fir_eq_conv", "c11_kernels_agree",
                               "c11_fft_size", "c11_ola_eq_conv", "c11_fft_eq_fir_delayed", "c11_iir_recurrence",
                               "c11_single_pole", "c11_lowpass_hamming", "c11_lowpass_blackman", "c11_hilbert_taps",
-                              "c11_fm_identities"],
+                              "c11_fm_identities", "c11_iir_clamped"],
         "runs": [
             {"sub": "blocks", "quick": ["--seed", "{seed}", "--set", "dsp", "--cases", 900, "--steps", 30, "--tag-heavy", 1],
              "thorough": ["--seed", "{seed}", "--set", "dsp", "--cases", 40000, "--steps", 60, "--tag-heavy", 1],
@@ -311,7 +318,8 @@ PROPS = {
         "assumptions": [],
     },
     "C13": {
-        "required_theorems": ["c13_table", "c13_crc_is_x25", "c13_crc_gate", "c13_bounds", "c13_abort"],
+        "required_theorems": ["c13_table", "c13_crc_is_x25", "c13_crc_gate", "c13_bounds", "c13_abort", "c13_roundtrip",
+                              "c13_frames", "c13_destuff"],
         "runs": [
             {"sub": "hdlc", "quick": ["--seed", "{seed}", "--cases", 2500],
              "thorough": ["--seed", "{seed}", "--cases", 200000], "timeout": 20000},
@@ -384,6 +392,9 @@ PROPS = {
         "runs": [
             {"sub": "bytes", "quick": ["--seed", "{seed}", "--cases", 20],
              "thorough": ["--seed", "{seed}", "--cases", 1500], "timeout": 40000},
+            # AU byte streams (valid and mutated headers) fed to the real decoder in 1..40-byte pieces vs the Lean decoder
+            {"sub": "crash", "quick": ["--seed", "{seed}", "--cases", 500, "--what", "au"],
+             "thorough": ["--seed", "{seed}", "--cases", 30000, "--what", "au"], "timeout": 20000},
         ],
         "rule": "serialize/parse of u8,u32,i32,f32,complex on boundary and random bit patterns (NaN payloads, infinities, "
                 "sign bits) and reassembly of random byte strings under random segmentations (0..9-byte chunks) compared with "
@@ -625,11 +636,15 @@ MANIFEST_TEXT = {
                 "are regenerated from the source on every run: the table is the 256 remainders of the reflected polynomial "
                 "0x8408 (kernel-evaluated over all entries) and calc_crc equals bit-serial CRC-16/X.25 on every byte string "
                 "(table step checked for all 65536 register values, lifted by induction); every packet emitted with checking on "
-                "has a verifying checksum; the accepted length bounds exactly; 7 ones abort. The round trip is tied by "
-                "correspondence with an independent encoder and by spec lines on clean transmissions.",
+                "has a verifying checksum; the accepted length bounds exactly; 7 ones abort; ROUND TRIP: for every payload "
+                "within the size limits the transmitter's bits (flags, LSB-first bytes, CRC low byte first, bit stuffing) "
+                "make the deframer deliver exactly that payload once, and any number of frames back to back (shared flags) or "
+                "separated by idle flags deliver exactly the payloads in order (destuffing inverts stuffing on every bit "
+                "string). Noise prefixes, chunking and corruptions are tied by correspondence with an independent encoder.",
         "design_ref": "DESIGN.md section 2, C13",
         "note": "Five deframer defects were repaired by fix: commits (len<2 panic, max_size equality, shared-zero flags, flag in "
-                "progress lost at the too-long reset). Error-detection theorems (odd weight, 2-bit) are not yet proved.",
+                "progress lost at the too-long reset). Not proved: resynchronisation after arbitrary noise, error-detection "
+                "(odd weight, 2-bit) - both by correspondence.",
         "technique": "Lean 4 proof over a model with translator-generated CRC table + differential correspondence with an independent encoder",
     },
     "C17": {
